@@ -76,7 +76,10 @@ func (m *SubscribeMessage) AddTopic(topic []byte, qos byte) error {
 	}
 
 	if found {
-		m.qos[i] = qos
+		if m.qos[i] != qos {
+			m.qos[i] = qos
+			m.dirty = true
+		}
 		return nil
 	}
 
